@@ -422,8 +422,11 @@ class Polyhedron(Shape3D):
 
     @volume.setter
     def volume(self, value):
-        scale = (value / self.volume) ** (1 / 3)
-        self._rescale(scale)
+        if value > 0:
+            scale = (value / self.volume) ** (1 / 3)
+            self._rescale(scale)
+        else:
+            raise ValueError("Volume must be greater than zero.")
 
     def get_face_area(self, faces=None):
         """Get the total surface area of a set of faces.
@@ -675,7 +678,10 @@ class Polyhedron(Shape3D):
 
     @circumsphere_radius.setter
     def circumsphere_radius(self, value):
-        self._rescale(value / self.circumsphere_radius)
+        if value > 0:
+            self._rescale(value / self.circumsphere_radius)
+        else:
+            raise ValueError("Circumsphere radius must be greater than zero.")
 
     @property
     def insphere(self):
@@ -712,7 +718,10 @@ class Polyhedron(Shape3D):
 
     @insphere_radius.setter
     def insphere_radius(self, value):
-        self._rescale(value / self.insphere_radius)
+        if value > 0:
+            self._rescale(value / self.insphere_radius)
+        else:
+            raise ValueError("Insphere radius must be greater than zero.")
 
     def get_dihedral(self, a, b):
         """Get the dihedral angle between a pair of faces.
